@@ -88,7 +88,9 @@ func runProp(prop, tier, repo string, seed int, evdir string, f func(*Run), only
 	r := NewRun(prop, tier)
 	configs := []buildConfig{{"linux", "amd64", ""}}
 	if tier == "thorough" {
-		configs = append(configs, buildConfig{"linux", "amd64", "verif"}, buildConfig{"linux", "386", ""}, buildConfig{"darwin", "amd64", ""})
+		// darwin is not analysed: its export data would have to be compiled from scratch (minutes) and the only
+		// darwin-specific file (ufs/util_darwin.go, atime accessor) is anchored by no rule
+		configs = append(configs, buildConfig{"linux", "amd64", "verif"}, buildConfig{"linux", "386", ""})
 	}
 	for i, c := range configs {
 		p, err := Load(repo, c.goos, c.goarch, c.tags)
@@ -117,6 +119,9 @@ func runProp(prop, tier, repo string, seed int, evdir string, f func(*Run), only
 				}
 			}()
 			f(r)
+			if i == 0 && tier == "thorough" {
+				bceCrossCheck(r)
+			}
 		}()
 		if i > 0 {
 			// keep only the obligations that differ from the primary configuration
